@@ -85,7 +85,7 @@ fn c09_oracle(ctx: &Ctx) -> Vec<Violation> {
             if spelled != d.name {
                 let it = &ctx.items[ti];
                 out.push(Violation::new(
-                    format!("{}/{}/typeref/def={},ref={}{}", ctx.l(), if !it.generics.is_empty() { "generic-target" } else { it.kind_name() }, name_kind(&d.name, it, &p), name_kind(&spelled, it, &p), if s.position == "const" { "/in-const" } else { "" }),
+                    format!("{}/{}/typeref/def={},ref={}{}", ctx.l(), if !it.generics.is_empty() { "generic-target" } else if it.serialized_as.is_some() { "alias" } else { it.kind_name() }, name_kind(&d.name, it, &p), name_kind(&spelled, it, &p), if s.position == "const" { "/in-const" } else { "" }),
                     format!("{}: {} `{}` refers to `{}` (via {}) but that type is defined as `{}`", ctx.lang.name(), s.position, s.owner, spelled, via, d.name),
                 ));
             }
@@ -253,8 +253,30 @@ fn c09_cfgs() -> BoxedStrategy<Cfg> {
         })
         .boxed()
 }
+/// some enums and structs are generated as an alias of another type (`#[typeshare(serialized_as = "String")]`) while
+/// still carrying their serde container attributes: references to them must keep naming them the way they are defined
+fn c09_post(mut items: Vec<Item>) -> Vec<Item> {
+    for it in items.iter_mut() {
+        if !it.generics.is_empty() || it.layout % 4 != 0 {
+            continue;
+        }
+        let rule = crate::gen::RULES[(it.layout as usize / 4) % 8].to_string();
+        match &mut it.kind {
+            Kind::Enum { rename_all, variants, .. } if variants.iter().all(|v| matches!(v.payload, Payload::Unit)) => {
+                it.serialized_as = Some(Ty::Prim(Prim::String));
+                *rename_all = Some(rule);
+            }
+            Kind::Struct { shape: Shape::Named(_), rename_all } if it.layout % 8 == 0 => {
+                it.serialized_as = Some(Ty::Vec(Box::new(Ty::Prim(Prim::U8))));
+                *rename_all = Some(rule);
+            }
+            _ => {}
+        }
+    }
+    items
+}
 pub fn c09() -> FactCheck {
-    FactCheck { name: "c09-names", gen: c09_gen, langs: &ALL_LANGS, oracle: c09_oracle, nontrivial: c09_nontrivial, labels: no_labels, cfgs: c09_cfgs, exec_python: false, post: no_post }
+    FactCheck { name: "c09-names", gen: c09_gen, langs: &ALL_LANGS, oracle: c09_oracle, nontrivial: c09_nontrivial, labels: no_labels, cfgs: c09_cfgs, exec_python: false, post: c09_post }
 }
 
 // =============================================================================================== C11
